@@ -25,6 +25,7 @@ def regenerate_all():
     import gen_diag
     import gen_scaling
     import gen_mainccalls
+    import gen_skeleton
     steps = [("tables", lambda: gen.regenerate(None)), ("callsites", lambda: gen_callsites.regenerate(None)),
              ("radius", lambda: gen_radius.regenerate(None)), ("booksites", lambda: gen_booksites.regenerate(None)),
              ("bookcalls", lambda: gen_bookcalls.regenerate(None)), ("exitsites", lambda: gen_exitsites.regenerate(None)),
@@ -37,7 +38,8 @@ def regenerate_all():
              ("unscale", lambda: gen_unscale.regenerate(None)), ("trsclip", lambda: gen_trsclip.regenerate(None)),
              ("json", lambda: gen_json.regenerate(None)), ("diag", lambda: gen_diag.regenerate(None)),
              ("scaling", lambda: gen_scaling.regenerate(None)),
-             ("solve-main-calls", lambda: gen_mainccalls.regenerate(None))]
+             ("solve-main-calls", lambda: gen_mainccalls.regenerate(None)),
+             ("main-loop-skeleton", lambda: gen_skeleton.regenerate(None))]
     for name, fn in steps:
         try:
             fn()
